@@ -162,6 +162,7 @@ type Outcome struct {
 	FireStack  string `json:"fire_stack,omitempty"` // node kinds open (being evaluated) when the fault fired
 
 	nodeKinds map[string]int
+	cleanup   func()
 }
 
 // SameRaw reports observable equality including raw keyvalue ids (valid only
